@@ -193,6 +193,39 @@ theorem startedOnly_of_no_empty (ms : List (Str × Bool))
     exact ⟨m, hm, h1 m hm hb⟩
   · rfl
 
+/-- whenever git's split yields no empty argument at all, the two agree exactly -/
+theorem tokens_eq_gitSplit (v : Str) (hs : isShell v = false) (ts : List Str)
+    (h : gitSplit v = .ok ts) (hne : [] ∉ ts) : tokens v = some ts := by
+  unfold gitSplit at h
+  cases hm : gitSplitM v with
+  | error e => rw [hm] at h; cases h
+  | ok ms =>
+    rw [hm] at h
+    cases h
+    have hsim := tokens_sim v hs
+    rw [hm] at hsim
+    simp only [SimRel] at hsim
+    rw [hsim]
+    congr 1
+    refine startedOnly_of_no_empty ms ?_ hne
+    exact unstarted_empty v [] [] false .none false ms (fun m hm => by cases hm) (fun _ => rfl) hm
+
+/-- a value git rejects (other than an unquoted trailing backslash) is rejected by git-ai too -/
+theorem tokens_none_of_error (v : Str) (hs : isShell v = false) (e : SplitErr)
+    (h : gitSplit v = .error e) (hb : gitSplit v ≠ .error (.badEnding false)) : tokens v = none := by
+  have hsim := tokens_sim v hs
+  unfold gitSplit at h hb
+  cases hm : gitSplitM v with
+  | ok ms => rw [hm] at h; cases h
+  | error e' =>
+    rw [hm] at hsim hb
+    cases e' with
+    | unclosedQuote => exact hsim
+    | badEnding b =>
+      cases b
+      · exact absurd rfl hb
+      · exact hsim
+
 /-! ### counting: a duplicate-free list inside another is no longer -/
 
 theorem nodup_subset_length {α} [DecidableEq α] (l k : List α) (hn : l.Nodup)
